@@ -58,6 +58,8 @@ BIGNUM = 10 ** 5000
 TYPED = [
     None, True, False, -1, 0, 1, 2 ** 53, 2 ** 53 + 1, BIGNUM, -BIGNUM, 0.0, 1.0, 1.5, -1.5,
     "", "a", "a.b", "a..b", ".a", "a.", "a b", "a#b", "a\n", "é", "A", "exact", "kill",
+    # values that are legal for a SIBLING enumeration (CANCEL vs INTERRUPT modes, match vs invoke ..)
+    "skip", "killnowait", "wildcard", "roundrobin",
     b"", b"a", [], [1], ["a"], [None], [[]], [{"session": 1}],
     {}, {"a": 1}, {1: "a"}, {"a": {"b": [1]}}, {None: 1}, {"session": 1, "authid": "a",
                                                             "authrole": "r"},
